@@ -44,7 +44,7 @@ else
 fi
 # stage 3: libFuzzer + ASan on the byte-level target
 if build fuzz cargo +nightly fuzz build --fuzz-dir /verif/fuzz seq; then
-  ./checks.d/C07-fuzz.sh "$SEED" $T/C07-fuzz.json
+  ./checks.d/fuzz-stage.sh seq C07 "$SEED" $T/C07-fuzz.json
   run_stage fuzz $?
 else
   rm -f $T/C07-fuzz.json; run_stage fuzz 2
